@@ -483,36 +483,62 @@ func ruleChainShared(c *Ctx, rule string) {
 	}
 	c.R.Functions[shortFn(fn)] = true
 	n := 0
-	for _, b := range fn.Blocks {
-		for _, in := range b.Instrs {
-			s, ok := in.(*ssa.Store)
+	// every store to a listener's handlers field, in Start or in a helper explored inline from it
+	for _, in := range viewInstrs(fn) {
+		s, ok := in.(*ssa.Store)
+		if !ok {
+			continue
+		}
+		fa, ok := s.Addr.(*ssa.FieldAddr)
+		if !ok || fieldName(fa) != "handlers" {
+			continue
+		}
+		n++
+		owner := namedOf(fa.X.Type())
+		wantIdx := 0
+		if strings.HasSuffix(owner, "listener6") {
+			wantIdx = 1
+		}
+		key := fmt.Sprintf("Start %s.handlers", shortName(owner))
+		good, why := staticOrigins(c, fn, s.Val, func(v ssa.Value) bool {
+			ex, ok := v.(*ssa.Extract)
+			if !ok || ex.Index != wantIdx {
+				return false
+			}
+			call, ok := ex.Tuple.(*ssa.Call)
 			if !ok {
-				continue
+				return false
 			}
-			fa, ok := s.Addr.(*ssa.FieldAddr)
-			if !ok || fieldName(fa) != "handlers" {
-				continue
+			f := call.Call.StaticCallee()
+			return f != nil && f.String() == modPath+"/plugins.LoadPlugins"
+		})
+		if good {
+			c.R.ok(rule, key, c.P.InstrPos(in), shortFn(fn), fmt.Sprintf("every listener gets result #%d of the single LoadPlugins call", wantIdx))
+		} else {
+			c.R.bad(rule, key, c.P.InstrPos(in), shortFn(fn), "listener handler list is not the LoadPlugins result for its protocol: "+why)
+		}
+	}
+	// and nowhere else in the package
+	for _, g := range c.P.SrcFuncs() {
+		if fnPkgPath(g) != fnPkgPath(fn) || isFixture(g) {
+			continue
+		}
+		part := false
+		for _, f := range inlineFuncs(fn) {
+			if f == g {
+				part = true
 			}
-			n++
-			owner := namedOf(fa.X.Type())
-			wantIdx := 0
-			if strings.HasSuffix(owner, "listener6") {
-				wantIdx = 1
-			}
-			key := fmt.Sprintf("Start %s.handlers", shortName(owner))
-			ex, ok := s.Val.(*ssa.Extract)
-			good := false
-			if ok && ex.Index == wantIdx {
-				if call, ok := ex.Tuple.(*ssa.Call); ok {
-					if f := call.Call.StaticCallee(); f != nil && f.String() == modPath+"/plugins.LoadPlugins" {
-						good = true
+		}
+		if part {
+			continue
+		}
+		for _, b := range g.Blocks {
+			for _, in := range b.Instrs {
+				if s, ok := in.(*ssa.Store); ok {
+					if fa, ok := s.Addr.(*ssa.FieldAddr); ok && fieldName(fa) == "handlers" && strings.Contains(namedOf(fa.X.Type()), "/server.listener") {
+						c.R.bad(rule, shortFn(g)+" handlers store", c.P.InstrPos(in), shortFn(g), "a listener's handler list is (re)assigned outside server.Start")
 					}
 				}
-			}
-			if good {
-				c.R.ok(rule, key, c.P.InstrPos(in), shortFn(fn), fmt.Sprintf("every listener gets result #%d of the single LoadPlugins call", wantIdx))
-			} else {
-				c.R.bad(rule, key, c.P.InstrPos(in), shortFn(fn), "listener handler list is not the LoadPlugins result for its protocol")
 			}
 		}
 	}
